@@ -140,6 +140,11 @@ func genOp(t *rapid.T, chain []byte, faults bool) Op {
 		}
 	case k <= 16:
 		op.Kind = "next"
+		if rapid.IntRange(0, 9).Draw(t, "foreignnext") == 0 {
+			// a request naming another chain: refused, and the queue is as it was
+			op.Foreign = true
+			op.ForeignID = genForeign(t, chain)
+		}
 	default:
 		op.Kind = "restart"
 	}
@@ -520,10 +525,15 @@ func (w *wld) next(i int, op Op, when string) *world.Verdict {
 		w.d.ArmCrashAfter(op.CrashAt - 1)
 	}
 	w.lastEmpty = false
+	foreignNext := op.Foreign && !bytes.Equal(op.ForeignID, w.sc.ChainID)
 	var resp *coresequencer.GetNextBatchResponse
 	var err error
 	pan, crashed := guarded(func() {
-		resp, err = w.s.GetNextBatch(w.ctx, coresequencer.GetNextBatchRequest{Id: w.sc.ChainID})
+		id := w.sc.ChainID
+		if foreignNext {
+			id = op.ForeignID
+		}
+		resp, err = w.s.GetNextBatch(w.ctx, coresequencer.GetNextBatchRequest{Id: id})
 	})
 	if op.CrashAt > 0 && !w.d.Dead() {
 		w.d.Disarm()
@@ -543,6 +553,19 @@ func (w *wld) next(i int, op Op, when string) *world.Verdict {
 		}
 		w.cands = dedupe(nx)
 		return w.reboot("crash-in-next")
+	}
+	if foreignNext && !crashed && pan == nil {
+		// a request under a foreign chain id hands out nothing and leaves no trace: the model is unchanged
+		// (a batch popped behind the refusal shows up as a lost batch in the later observations)
+		if err == nil && resp != nil && resp.Batch != nil && len(resp.Batch.Transactions) > 0 {
+			v := world.Fail("C10/foreign-next-handed-out", "%s: GetNextBatch under a foreign chain id %q handed out a batch of %d transactions", when, op.ForeignID, len(resp.Batch.Transactions))
+			return &v
+		}
+		w.labels["foreign-id-next"] = true
+		if op.CrashAt > 0 {
+			return w.reboot("killed-after-next")
+		}
+		return nil
 	}
 	if err != nil {
 		w.obs["next-error-without-fault"] = true
